@@ -15,8 +15,9 @@ theorem C19_all_translated :
       f ∈ translated := by decide
 
 /-- "every integer type": the constraint `Integer` admits exactly the eight integer types and every defined type over
-them (`~`).  (The translated subset has no means to tell a defined type from its underlying type - no type switch, no
-`any(x)`, no reflection: such a tree is rejected by the translator - so the theorems about `IntTy` cover defined types.) -/
+them (`~`).  (The only means the translated subset has to tell a defined type from its underlying type is a type switch over
+`any(x)`, which the translator models with the module variable `named_`; `any(x)` elsewhere and reflection are rejected.  In
+safe_math.go as it is there is none, so the theorems about `IntTy` cover the defined types.) -/
 theorem C19_integer_constraint :
     integerConstraint = ["~uint64", "~uint32", "~uint16", "~uint8", "~int64", "~int32", "~int16", "~int8"] := by decide
 
